@@ -70,6 +70,30 @@ def stmt_failure(cfg):
     return None
 
 
+def default_layout_failure(cfg):
+    """the all-default layout (radius=None: a radius covering the whole image, n_bins=None: bins about one pixel wide, inner radius 0):
+    every pixel of the image then lies inside the covered range, so the bins sum to exactly 1 everywhere"""
+    cx, cy, sx, sy = cfg['centerX'], cfg['centerY'], cfg['imageSizeX'], cfg['imageSizeY']
+    res = {}
+    for sp in (True, False):
+        try:
+            b = dense(masks.radial_bins(centerX=cx, centerY=cy, imageSizeX=sx, imageSizeY=sy, use_sparse=sp))
+        except Exception as e:  # noqa
+            return 'radial_bins(default layout, use_sparse=%s) raised %s: %s' % (sp, type(e).__name__, e)
+        res[sp] = b
+        if b.ndim != 3 or b.shape[1:] != (sy, sx):
+            return 'radial_bins(default layout) returned shape %s for a %dx%d image' % (b.shape, sy, sx)
+        if (b < -1e-12).any():
+            return 'negative bin value (default layout)'
+        s = b.sum(axis=0)
+        if np.abs(s - 1).max() > 1e-9:
+            i = np.unravel_index(np.argmax(np.abs(s - 1)), s.shape)
+            return 'default layout (radius=None, n_bins=None): bins sum to %.6g instead of 1 at pixel %s (use_sparse=%s)' % (s[i], tuple(int(v) for v in i), sp)
+    if res[True].shape != res[False].shape or not np.allclose(res[True], res[False], atol=1e-12):
+        return 'dense and sparse results differ (default layout)'
+    return None
+
+
 # layouts whose bin width is not exactly representable (np.arange / linspace end-point effects), always checked first
 FIXED_CFGS = [dict(centerX=20.0, centerY=19.0, imageSizeX=44, imageSizeY=41, radius=r, radius_inner=ri, n_bins=n)
               for (r, ri, n) in ((9.0, 0.5, 7), (15.0, 0.0, 13), (17.0, 0.0, 7), (17.0, 0.0, 14), (10.0, 0.75, 9), (19.0, 1.0, 11))]
@@ -96,7 +120,7 @@ def rand_cfg(rng):
 
 
 def replay(body):
-    fail = stmt_failure(body['args'])
+    fail = default_layout_failure(body['args']) if body['args'].get('default_layout') else stmt_failure(body['args'])
     print(json.dumps({'failure_now': fail}, indent=1))
     if fail:
         print('VIOLATION property=C18 replay=(given)')
@@ -172,6 +196,37 @@ def run(ctx):
                 sig = 'radial_bins centre patch applied at r >= 0.5'
             ctx.violation('input', fail, {'kind': 'input', 'call': 'radial_bins', 'args': cfg, 'failure': fail}, signature=sig)
             break
+    # (S) centres with one-decimal coordinates outside the image on every side (coordinates whose float differences round unluckily), tiny to
+    # small images, explicit one-bin and multi-bin layouts and the all-default layout
+    found = False
+    for k10 in range(1, ctx.n(100, 160)):
+        for size in (1, 3, 7, 10):
+            for side in range(4):
+                off = -k10 / 10.0 if side < 2 else size + k10 / 10.0
+                other = float(rng.choice([size / 2.0, 0.3 * size, -0.7, 1.0]))
+                cx, cy = (off, other) if side % 2 else (other, off)
+                cfg = {'centerX': cx, 'centerY': cy, 'imageSizeX': size, 'imageSizeY': int(size + rng.integers(0, 3)), 'radius': 3.0 + k10 / 10.0, 'radius_inner': 0.0, 'n_bins': int(rng.integers(1, 4))}
+                fail = stmt_failure(cfg)
+                dflt = False
+                if not fail:
+                    fail, dflt = default_layout_failure(cfg), True
+                ctx.count(2, key=('decimal centre', json.dumps(cfg, sort_keys=True)))
+                if fail:
+                    args = dict(cfg, default_layout=True) if dflt else cfg
+                    ctx.violation('input', fail, {'kind': 'input', 'call': 'radial_bins', 'args': args, 'failure': fail})
+                    found = True
+                    break
+            if found:
+                break
+        if found:
+            break
+    for k in range(ctx.n(60, 600)):
+        cfg = rand_cfg(rng)
+        fail = default_layout_failure(cfg)
+        ctx.count(1, key=('default layout', cfg['centerX'], cfg['centerY'], cfg['imageSizeX'], cfg['imageSizeY']))
+        if fail:
+            ctx.violation('input', fail, {'kind': 'input', 'call': 'radial_bins', 'args': dict(cfg, default_layout=True), 'failure': fail})
+            break
     ctx.extra['oracle_configs'] = nS
     return ctx.finish(
         LEVEL,
@@ -179,4 +234,4 @@ def run(ctx):
                     'in [0,1] everywhere, ring+disk=disk, patch only at r<1/2 and patched sum 1-ri, normalised bins sum to 1. Tie: the model evaluated in '
                     'exact rational arithmetic on the implementation\'s own polar_map radii, pixel by pixel incl. the nearest-to-centre pixel (dense and sparse).',
         rule='centres integer / half-integer / fractional in [-5,size+5]^2, sizes 1..60 (K: <=24), inner radius in {0,0.5,1,2.25,3}, 1..8 bins of width '
-             '1..4 (incl. non-representable widths 4/3, 9/7, 17/13), use_sparse None/True/False, normalize on/off; distinct by configuration (and pixel).')
+             '1..4 (incl. non-representable widths 4/3, 9/7, 17/13), use_sparse None/True/False, normalize on/off; one-decimal centres outside the image on every side; the all-default layout (radius=None, n_bins=None); distinct by configuration (and pixel).')
